@@ -203,7 +203,7 @@ func (c *c11Cast) run(cfg c11Cfg, hist []int) (out c10Run) {
 			if c11AfterEvent != nil && len(vsched.Held()) == 0 {
 				c11AfterEvent(dir, name)
 			}
-					return false
+			return false
 		}
 		for _, e := range hist {
 			if step(e) {
